@@ -1,12 +1,18 @@
 import RawPanelVerif.Gen.Consts
 import RawPanelVerif.Lemmas.GfxCor
 import RawPanelVerif.Lemmas.GfxSpecLift
+import RawPanelVerif.Lemmas.GfxErase
+import RawPanelVerif.Lemmas.GfxMulti
+import RawPanelVerif.Lemmas.GfxHeap
+import RawPanelVerif.Gen.Reader
 /-!
 # C05 — Chunked graphics reassemble exactly; no corrupt image is ever delivered
 
 Property theorems only (helpers: `Lemmas/Gfx*.lean`; model: `Model/Gfx.lean`; property: `Spec/GfxSpec.lean`).
-The theorems are about the model of the **repaired** decoder (`Batch.step`, `Stream.parse`; patch fix-C05.patch);
+The theorems are about the model of the **repaired** decoder (`Batch.step`, `Stream.parse`; `fix:` 87cf381);
 the behaviour of the pinned tree is kept as `…Pinned` and refuted by the `pinned_…_counterexample`s.
+`C06.batch_models_agree` / `C06.parse_models_agree` prove that this model and the full inbound decoder model of
+C01/C02/C06 (`Model/DecIn.lean`) return the same messages on every line sequence, so all of them speak about one function.
 
 **Chunking** (encoder, for every image and target list text)
 * `chunk_len_le_170`, `chunk_count`, `chunks_concat`, `chunk_lines_read_back`.
@@ -16,33 +22,62 @@ the behaviour of the pinned tree is kept as `…Pinned` and refuted by the `pinn
 * `clean_run_batch_any_state`     … from any state of the decoder's locals, at the position of the last line
 * `clean_run_stream`              line by line from any reader state: nothing before, the image at the last line,
                                   the reader reset afterwards
-* `clean_run_stream_serialised`   the same with `serialise`/`restore` between any two lines
+* `clean_run_stream_serialised`   the same with `serialise`/`restore` between any two lines, from any JSON document
 * `clean_run_interleaved`         with unrelated non-graphics lines woven in anywhere: the graphics messages of the
                                   batch call are exactly the image; streaming (plain and serialised) returns graphics
                                   at exactly one call — the one on the last chunk line — and it is the image
 
-**Safety** (every history of lines, no length bound, numbers of at most 9 digits)
-* `all_deliveries_legitimate_batch | _stream | _serialised`   `Spec.Gfx.safetyOn … = none`: every delivery is
-  legitimate where it was returned (chunks 0..N in order of one transfer started by its chunk 0, same target list and
-  format, header metadata, no chunk 0 between), no transfer delivered twice, no delivered object altered
+**Safety** (every history of lines, no length bound; domain `Spec.Gfx.inDomain`: every target id, dimension and offset
+below 2^32 — the `uint32` message fields —, every chunk index / declared last index below 2^63 — a Go `int`; any number
+of digits and leading zeros.  `numbers_as_the_code_reads_them` says what `su.Intval` / `uint32(…)` do beyond: clamp to
+`MaxInt64`, wrap modulo 2^32; `safety_id_domain_counterexample` shows the id bound is needed)
+* `all_deliveries_legitimate_batch | _stream | _serialised`   `Spec.Gfx.safetyOn … = none` on the deliveries with their
+  (ghost) line positions: every delivery is legitimate where it was returned (chunks 0..N in order of one transfer started
+  by its chunk 0, same target list and format, header metadata, no chunk 0 between), no transfer delivered twice, no
+  delivered object altered
 * `at_most_once_batch | _stream`  the transfers of the deliveries are pairwise different
-* `never_altered`                 (no domain condition) bytes at the end of the call = bytes when the message was made
+* `never_altered`                 batch call, no domain condition: bytes at the end of the call = bytes when the message was
+                                  made (image objects are cells of a store; a delivered cell is never written again)
+* `stream_never_altered`          streaming reader, no domain condition, object identity across calls (one heap region per
+                                  hand-over to the batch converter, `Stream.runH`): the deliveries are those of
+                                  `Stream.parse`, and every delivered object holds at the END of the history the bytes it
+                                  held when `Parse` returned it.  `parse_returns_batch_result`: `Parse` returns nil or what
+                                  one batch call returns.  Rests on `reader_fields_are_values` (the reader struct, read
+                                  from the source on every run, has the five value-typed fields: no pointer to an image),
+                                  on the batch converter allocating its objects itself, and on C06 `no_shared_mutable_state`.
 
 **The Spec's own reading of a line** (every byte string)
 * `spec_reading_agrees`           `Spec.Gfx.parseLine l = readLine l`: the Spec's independently written line grammar and
   the decoder's own matcher (`readLine`, used by the safety theorems above) accept the same lines and read the same
-  chunk from them (both accept exactly `Lemmas/GfxAgree.lean: Shape`). The driver still compares the two on every
+  chunk from them (both accept exactly `Lemmas/GfxAgree.lean: Shape`).  The driver still compares the two on every
   line of every record, and the matcher against the real regular expression by the `gfx.match` records.
-* `safety_spec_batch | _stream`   the safety theorems restated with `Spec.Gfx.checkSafety` / `Spec.Gfx.inDomain` on
-  the lines themselves (streaming: the lines with surrounding white space stripped), as the driver evaluates them
+* `safety_spec_batch`             `Spec.Gfx.checkSafety lines (batchObserved …) = none`: the batch call as its caller
+  observes it — a list of messages WITHOUT line positions, images read after the call returned — which is, field by field,
+  what the driver builds from the implementation's output (`Driver/Gfx.lean: delivsOf sec false`).  Obtained from the
+  positions form (`safety_spec_batch_positions`) by `safety_erase_pos`: deliveries in line order that pass the Spec's check
+  with their positions pass it without (the Spec then searches positions itself; `safety_erase_pos_needs_order`), and
+  `batchObserved_eq`.
+* `safety_spec_stream`            the streaming reader, plain and serialised, with the positions of the `Parse` calls (which
+  the driver does observe); the history is the lines with surrounding white-space runes stripped (`Bytes.trimSpace` =
+  Go's `strings.TrimSpace`, incl. U+0085, U+00A0, U+2028 …).
 
 **Encoder and clean runs in the Spec's terms** (through `Spec.Gfx.parseLine`)
 * `encoder_lines_clean`           `Spec.Gfx.checkEnc (sentOf g) ids (encodeState g ids) = none` for every image whose
   fields fit the message types and every id list (also the empty image / empty list)
 * `clean_run_spec`                the encoder's lines for one 32-bit id, woven with unrelated lines: `cleanRuns` holds
   and `checkClean` passes for the batch call, the streaming reader and the serialised reader (delivery at the
-  position of the run's last line). The id must fit `uint32` (the type of `HWCIDs`): for larger ids the decoder
+  position of the run's last line).  The id must fit `uint32` (the type of `HWCIDs`): for larger ids the decoder
   delivers to `id mod 2^32` and `checkClean` fails — `clean_run_spec_id_domain_counterexample`.
+* `clean_run_spec_multi`          the encoder's WHOLE output for an id list (one transfer per id), woven: one delivery per id,
+  in order, each at the last line of its run — batch as observed (no positions), streaming, serialised
+* `clean_run_spec_multi_any_state` the same from ANY state of the batch locals, ANY reader state, ANY JSON document — hence
+  after any earlier history (`history_split`: a history is the earlier history followed by the rest run from the state it
+  left, positions continued)
+
+**The JSON hop** (`Lemmas/GfxJson.lean`): `json.Marshal`/`Unmarshal` replace invalid UTF-8 in the held lines by U+FFFD
+(`jsonFix`, compared with the real hop on every record: the final reader state lists the held lines).  `serial_stream`:
+the serialised reader returns at every line what the plain reader returns (a payload with a byte ≥ 0x80 is undecodable
+base64 before and after; groups 1–10 of a chunk line are ASCII).
 -/
 namespace RawPanelVerif.C05
 open RawPanelVerif RawPanelVerif.Gfx
@@ -155,9 +190,9 @@ theorem clean_run_stream_serialised (g : Img) (ids : Bytes) (hv : ValidIds ids) 
       quiet pos (totalLines g.data.length - 1) ++
         [(pos + (totalLines g.data.length - 1), [.gfx (intExplode ids) (received g) 1])] ∧
     restore (Serial.runFrom Stream.parse w pos (chunkLines g ids)).1 = rdone (totalLines g.data.length) := by
-  have hs := serial_stream Stream.parse (chunkLines g ids) w pos
+  have hs := serial_stream (chunkLines g ids) w pos
   rw [stream_chunkLines g ids hv hr h (restore w) pos] at hs
-  exact hs
+  exact ⟨hs.1, sim_rdone _ _ hs.2⟩
 
 theorem clean_run_interleaved (g : Img) (ids : Bytes) (hv : ValidIds ids) (hr : InRange g) (h : g.data ≠ [])
     (all : List Bytes) (w : Weave (chunkLines g ids) all) :
@@ -176,7 +211,7 @@ theorem clean_run_interleaved (g : Img) (ids : Bytes) (hv : ValidIds ids) (hr : 
     exact hits_chunkLines g ids hv hr h {} 0
   refine ⟨?_, hst, ?_⟩
   · rw [decode_weave _ _ w, clean_run_batch g ids hv hr h]; rfl
-  · have := (serial_stream Stream.parse all none 0).1
+  · have := (serial_stream all none 0).1
     unfold Serial.run
     rw [this]
     exact hst
@@ -214,7 +249,7 @@ theorem at_most_once_stream (lines : List Bytes) (hdom : Spec.Gfx.inDomainOn (re
   have hg := stream_good lines hdom lines 0 {} [] rfl ⟨(fun _ hu => nomatch hu), Or.inl rfl⟩
   have h1 := (good_transfers _ _ _ hg).1
   refine ⟨h1, ?_⟩
-  have := (serial_stream Stream.parse lines none 0).1
+  have := (serial_stream lines none 0).1
   unfold serialDelivs Serial.run
   rw [this]
   exact h1
@@ -225,13 +260,80 @@ theorem never_altered (lines : List Bytes) :
     ∀ d ∈ batchDelivs Batch.step lines, d.final = d.img.data :=
   batch_never_altered lines
 
+/-! ## never altered, streaming reader: object identity across `Parse` calls -/
+
+/-- the streaming reader with its image objects in a session heap (one region per hand-over to the batch converter):
+deliveries as `Parse` returned them, `final` = the bytes the same object holds in the heap after the whole history -/
+def streamHeapDelivs (lines : List Bytes) : List Spec.Gfx.Deliv := streamDelivsH lines
+
+/-- `Parse` returns nil or exactly what ONE call of the batch converter returns for the lines it hands over (the
+buffered run, or the single non-graphics line); it creates no image object itself -/
+theorem parse_returns_batch_result (s : RState) (l : Bytes) :
+    Stream.parse s l =
+      ((Stream.handover s l).1,
+        match (Stream.handover s l).2 with
+        | none => []
+        | some ls => Batch.decode Batch.step ls) :=
+  parse_is_handover s l
+
+/-- for every history whatsoever: the deliveries of the reader with object identity are exactly those of
+`Stream.parse` (the model compared with the real `Parse`), and the bytes every delivered object holds at the END of the
+history are the bytes it held when `Parse` returned it — later `Parse` calls only allocate new regions -/
+theorem stream_never_altered (lines : List Bytes) :
+    streamHeapDelivs lines = streamDelivs Stream.parse lines ∧
+    ∀ d ∈ streamHeapDelivs lines, d.final = d.img.data :=
+  ⟨streamDelivsH_eq lines, RawPanelVerif.Gfx.stream_never_altered lines⟩
+
+/-- the reader keeps no pointer to an image: `type ASCIIreader struct` (regenerated from the source on every run) has
+exactly the five value-typed fields of the model's `RState` (and all exported, so `encoding/json` carries them) -/
+theorem reader_fields_are_values :
+    Gen.asciiReaderFields =
+      [("HWCGfx_count", "int"), ("HWCGfx_ImageType", "string"), ("HWCGfx", "[]string"), ("HWCGfx_max", "int"),
+       ("HWCGfx_HWClist", "string")] := by decide
+
 /-! ## the Spec's own reading of a line -/
 
 /-- the Spec's line grammar and the decoder's matcher agree on every byte string -/
 theorem spec_reading_agrees (l : Bytes) : Spec.Gfx.parseLine l = readLine l := parseLine_eq_readLine l
 
-/-- safety of the batch call exactly as the driver evaluates it: `Spec.Gfx.checkSafety` on the lines -/
+/-- what the caller of the batch function observes: the graphics messages of the returned list as read after the
+call returned — no line positions, the image object's content at that time (also its final content).  Field by field
+what `Driver/Gfx.lean: delivsOf sec false` builds from the implementation's printed messages. -/
+def batchObserved (step : BState → Bytes → BState × Option Out) (lines : List Bytes) : List Spec.Gfx.Deliv :=
+  observedOf (Batch.decode step lines)
+
+/-- the observation is the ghost deliveries (`batchDelivs`: creation position, snapshot at creation) with the
+positions erased: no delivered object is written after its message was created -/
+theorem batchObserved_eq (lines : List Bytes) :
+    batchObserved Batch.step lines = (batchDelivs Batch.step lines).map erasePos := by
+  unfold batchObserved batchDelivs Batch.decode
+  exact observed_eq_erase _ _ (run_never_altered lines {} 0 (by decide))
+
+/-- `Spec.Gfx.safetyOn` is indifferent to losing the positions of deliveries that came in line order: if deliveries
+that all carry positions, strictly increasing, pass the check, they pass it with the positions erased (the Spec then
+searches the positions itself).  The order hypothesis is needed: `safety_erase_pos_needs_order`. -/
+theorem safety_erase_pos (cs : List (Option Spec.Gfx.Chunk)) (ds : List Spec.Gfx.Deliv) (hs : PosSorted 0 ds)
+    (h : Spec.Gfx.safetyOn cs ds = none) : Spec.Gfx.safetyOn cs (ds.map erasePos) = none := by
+  unfold Spec.Gfx.safetyOn at h ⊢
+  have hg : Good cs ds [] := good_of_safetyLoop cs cs.length ds 0 0 [] (fun d hd => by
+    obtain ⟨p, hp, _⟩ := posSorted_ge ds 0 hs d hd; rw [hp]; rfl) h
+  exact safetyLoop_erase cs ds [] hg 0 0 [] hs (fun _ _ _ _ hm => by simp at hm)
+
+/-- safety of the batch call on exactly what the driver evaluates: `Spec.Gfx.checkSafety` on the lines and the
+caller's observation of the returned messages (no positions) -/
 theorem safety_spec_batch (lines : List Bytes) (hdom : Spec.Gfx.inDomain lines = true) :
+    Spec.Gfx.checkSafety lines (batchObserved Batch.step lines) = none := by
+  have e : readings lines = lines.map Spec.Gfx.parseLine := map_readLine lines
+  have hd : Spec.Gfx.inDomainOn (readings lines) = true := by rw [e, ← inDomain_eq]; exact hdom
+  have hg := batch_good lines hd lines 0 {} [] rfl ⟨by decide, (fun _ hu => nomatch hu), Or.inl rfl⟩
+  have hsort : PosSorted 0 (batchDelivs Batch.step lines) := delivsOf_posSorted Batch.step _ lines {} 0
+  have h := safetyLoop_erase (readings lines) (batchDelivs Batch.step lines) [] hg 0 0 [] hsort
+    (fun _ _ _ _ hm => by simp at hm)
+  unfold Spec.Gfx.checkSafety Spec.Gfx.safety Spec.Gfx.safetyOn
+  rw [batchObserved_eq, ← e, h]; rfl
+
+/-- the same with the ghost positions kept (the form the invariant proof produces) -/
+theorem safety_spec_batch_positions (lines : List Bytes) (hdom : Spec.Gfx.inDomain lines = true) :
     Spec.Gfx.checkSafety lines (batchDelivs Batch.step lines) = none := by
   have e : readings lines = lines.map Spec.Gfx.parseLine := map_readLine lines
   have h := all_deliveries_legitimate_batch lines (by rw [e, ← inDomain_eq]; exact hdom)
@@ -239,10 +341,10 @@ theorem safety_spec_batch (lines : List Bytes) (hdom : Spec.Gfx.inDomain lines =
   rw [← e, h]; rfl
 
 /-- … of the streaming reader, plain and serialised: the history is the lines with white space stripped -/
-theorem safety_spec_stream (lines : List Bytes) (hdom : Spec.Gfx.inDomain (lines.map Trim.trimSpace) = true) :
-    Spec.Gfx.checkSafety (lines.map Trim.trimSpace) (streamDelivs Stream.parse lines) = none ∧
-    Spec.Gfx.checkSafety (lines.map Trim.trimSpace) (serialDelivs Stream.parse lines) = none := by
-  have e : readingsTrimmed lines = (lines.map Trim.trimSpace).map Spec.Gfx.parseLine := map_readTrimmed lines
+theorem safety_spec_stream (lines : List Bytes) (hdom : Spec.Gfx.inDomain (lines.map Bytes.trimSpace) = true) :
+    Spec.Gfx.checkSafety (lines.map Bytes.trimSpace) (streamDelivs Stream.parse lines) = none ∧
+    Spec.Gfx.checkSafety (lines.map Bytes.trimSpace) (serialDelivs Stream.parse lines) = none := by
+  have e : readingsTrimmed lines = (lines.map Bytes.trimSpace).map Spec.Gfx.parseLine := map_readTrimmed lines
   have hd : Spec.Gfx.inDomainOn (readingsTrimmed lines) = true := by rw [e, ← inDomain_eq]; exact hdom
   have h1 := all_deliveries_legitimate_stream lines hd
   have h2 := all_deliveries_legitimate_serialised lines hd
@@ -265,10 +367,85 @@ theorem clean_run_spec (g : Img) (id : Nat) (hid : id < 2 ^ 32) (hr : InRange g)
     (w : Weave (chunkLines g (dec id)) all) :
     Spec.Gfx.cleanRuns (sentOf g) [id] all = true ∧
     Spec.Gfx.checkClean (sentOf g) [id] all (batchDelivs Batch.step all) = none ∧
-    Spec.Gfx.cleanRuns (sentOf g) [id] (all.map Trim.trimSpace) = true ∧
-    Spec.Gfx.checkClean (sentOf g) [id] (all.map Trim.trimSpace) (streamDelivs Stream.parse all) = none ∧
-    Spec.Gfx.checkClean (sentOf g) [id] (all.map Trim.trimSpace) (serialDelivs Stream.parse all) = none :=
+    Spec.Gfx.cleanRuns (sentOf g) [id] (all.map Bytes.trimSpace) = true ∧
+    Spec.Gfx.checkClean (sentOf g) [id] (all.map Bytes.trimSpace) (streamDelivs Stream.parse all) = none ∧
+    Spec.Gfx.checkClean (sentOf g) [id] (all.map Bytes.trimSpace) (serialDelivs Stream.parse all) = none :=
   clean_run_spec_all g id hid hr all w
+
+/-- **the encoder's whole output** (one complete transfer per target id, every id a `uint32`), with unrelated lines
+woven in anywhere, from ANY state of the batch decoder's locals `s0`, ANY state `s` of the streaming reader and ANY
+serialised reader state `wire` — in particular from every state reachable by an earlier history: the graphics lines
+are, for the Spec, one clean run per id, and the Spec's clean-run check passes on the deliveries: exactly one image
+per id, in order, equal to what was sent, at the last line of its run, unaltered at the end -/
+theorem clean_run_spec_multi_any_state (g : Img) (ids : List Nat) (hids : ∀ id ∈ ids, id < 2 ^ 32) (hr : InRange g)
+    (all : List Bytes) (w : Weave (encodeState g ids) all) (s0 : BState) (s : RState) (wire : Option Wire) :
+    Spec.Gfx.cleanRuns (sentOf g) ids all = true ∧
+    Spec.Gfx.checkClean (sentOf g) ids all
+      (delivsOf (Batch.runFrom Batch.step s0 0 all).1.store (Batch.runFrom Batch.step s0 0 all).2) = none ∧
+    Spec.Gfx.cleanRuns (sentOf g) ids (all.map Bytes.trimSpace) = true ∧
+    Spec.Gfx.checkClean (sentOf g) ids (all.map Bytes.trimSpace)
+      (delivsOfStream (Stream.runFrom Stream.parse s 0 all).2) = none ∧
+    Spec.Gfx.checkClean (sentOf g) ids (all.map Bytes.trimSpace)
+      (delivsOfStream (Serial.runFrom Stream.parse wire 0 all).2) = none :=
+  clean_run_multi_any g ids hids hr all w s0 s wire
+
+/-- … from the initial states, in the forms the driver evaluates: the batch call as its caller observes it (no
+positions), the streaming reader and the serialised reader with the positions of the `Parse` calls -/
+theorem clean_run_spec_multi (g : Img) (ids : List Nat) (hids : ∀ id ∈ ids, id < 2 ^ 32) (hr : InRange g)
+    (all : List Bytes) (w : Weave (encodeState g ids) all) :
+    Spec.Gfx.cleanRuns (sentOf g) ids all = true ∧
+    Spec.Gfx.checkClean (sentOf g) ids all (batchObserved Batch.step all) = none ∧
+    Spec.Gfx.cleanRuns (sentOf g) ids (all.map Bytes.trimSpace) = true ∧
+    Spec.Gfx.checkClean (sentOf g) ids (all.map Bytes.trimSpace) (streamDelivs Stream.parse all) = none ∧
+    Spec.Gfx.checkClean (sentOf g) ids (all.map Bytes.trimSpace) (serialDelivs Stream.parse all) = none := by
+  obtain ⟨h1, h2, h3, h4, h5⟩ := clean_run_multi_any g ids hids hr all w {} {} none
+  refine ⟨h1, ?_, h3, h4, h5⟩
+  rw [batchObserved_eq]
+  exact checkClean_erase _ _ _ _ h2
+
+/-- a history is the earlier history followed by the rest run from the state the earlier history left behind, with
+the position count continued — so `clean_run_spec_multi_any_state` applies to a clean run after ANY earlier history -/
+theorem history_split (pre rest : List Bytes) :
+    (Stream.run Stream.parse (pre ++ rest)).2 =
+      (Stream.run Stream.parse pre).2 ++
+        (Stream.runFrom Stream.parse (Stream.run Stream.parse pre).1 0 rest).2.map (fun e => (pre.length + e.1, e.2)) ∧
+    (Batch.run Batch.step (pre ++ rest)).2 =
+      (Batch.run Batch.step pre).2 ++
+        (Batch.runFrom Batch.step (Batch.run Batch.step pre).1 0 rest).2.map
+          (fun e => { e with pos := pre.length + e.pos }) := by
+  constructor
+  · unfold Stream.run
+    rw [stream_append]
+    simp only []
+    have := stream_shift Stream.parse pre.length rest (Stream.runFrom Stream.parse {} 0 pre).1 0
+    simp only [Nat.add_zero, Nat.zero_add] at this ⊢
+    rw [this.2]
+  · unfold Batch.run
+    rw [runFrom_append]
+    simp only []
+    have := batch_shift Batch.step pre.length rest (Batch.runFrom Batch.step {} 0 pre).1 0
+    simp only [Nat.add_zero, Nat.zero_add] at this ⊢
+    rw [this.2]
+
+/-! ## the domain of the safety theorems: what the code does with numbers beyond it -/
+
+/-- a number of a chunk line as the code reads it (`su.Intval` = `strconv.Atoi` with the error dropped, and the
+`uint32(…)` conversion for ids / dimensions / offsets): up to `2^63-1` the value itself (any number of digits and
+leading zeros), a `uint32` field keeps it modulo `2^32`; from `2^63` on `Atoi` returns `MaxInt64`, which a `uint32`
+field stores as `2^32-1`.  `Spec.Gfx.Chunk.small` (the domain of the safety theorems) is exactly: ids, dimensions
+and offsets below `2^32`, chunk index and declared last index below `2^63` — where reading is the identity. -/
+theorem numbers_as_the_code_reads_them (ds : Bytes) (hne : ds ≠ []) (hd : ds.all isDigit = true) :
+    (natOfDigits ds < 2 ^ 63 → atoi ds = natOfDigits ds ∧ atou32 ds = natOfDigits ds % 2 ^ 32) ∧
+    (natOfDigits ds < 2 ^ 32 → atou32 ds = natOfDigits ds) ∧
+    (2 ^ 63 ≤ natOfDigits ds → atoi ds = 2 ^ 63 - 1 ∧ atou32 ds = 2 ^ 32 - 1) := by
+  have hnum : atoiNat ds = natOfDigits ds := by
+    unfold atoiNat
+    cases ds with
+    | nil => exact absurd rfl hne
+    | cons _ _ => simp [hd]
+  refine ⟨fun h => ⟨?_, atou32_wraps ds hne hd h⟩, fun h => ?_, fun h => ⟨atoi_clamps ds hne hd h, atou32_clamped ds hne hd h⟩⟩
+  · rw [atoi_eq_atoiNat ds (by simp only [intB, decide_eq_true_eq]; exact h), hnum]
+  · rw [atou32_eq_atoiNat ds (by simp only [u32B, decide_eq_true_eq]; exact h), hnum]
 
 /-! ## concrete lines used below -/
 
@@ -318,6 +495,10 @@ example : Spec.Gfx.inDomainOn (readings [Pinned.c0of1, Pinned.c1, Pinned.c2]) = 
     Spec.Gfx.inDomainOn (readingsTrimmed [Pinned.c0of1, Pinned.c1, Pinned.c1]) = true ∧
     (streamDelivs Stream.parse [Pinned.c0of1, Pinned.c1, Pinned.c1]).length = 1 := by decide
 
+/-- a delivery does occur in the heap model, and its object is read from the region of the call that returned it -/
+example : (streamHeapDelivs [Pinned.c0of1, Pinned.c1, Pinned.c1]).map (fun d => (d.pos, d.final)) = [(some 1, [1, 2])] := by
+  decide
+
 /-- hypotheses of `clean_run_spec` / `encoder_lines_clean` on a real input: id 5, `ping` before and after the run -/
 example : (5 : Nat) < 2 ^ 32 ∧ InRange Example.g ∧ chunkLines Example.g (dec 5) ≠ [] ∧
     Weave (chunkLines Example.g (dec 5)) (Example.ping :: chunkLines Example.g (dec 5) ++ [Example.ping]) := by
@@ -332,7 +513,7 @@ example : (5 : Nat) < 2 ^ 32 ∧ InRange Example.g ∧ chunkLines Example.g (dec
 example : (Spec.Gfx.parseLine Pinned.c0of2).isSome = true ∧ Spec.Gfx.parseLine Example.ping = none := by decide
 /-- the domain hypothesis of the `safety_spec_*` theorems on a real history with a delivery -/
 example : Spec.Gfx.inDomain [Pinned.c0of1, Pinned.c1, Pinned.c2] = true ∧
-    Spec.Gfx.inDomain ([Pinned.c0of1, Pinned.c1, Pinned.c1].map Trim.trimSpace) = true := by decide
+    Spec.Gfx.inDomain ([Pinned.c0of1, Pinned.c1, Pinned.c1].map Bytes.trimSpace) = true := by decide
 
 /-- the id bound of `clean_run_spec` is needed: the target id `2^32` does not fit the `uint32` the decoder stores
 ids in, the image arrives for id `0`, and the Spec's clean-run check fails (here on the bare run, batch call) -/
@@ -341,6 +522,58 @@ theorem clean_run_spec_id_domain_counterexample :
       (batchDelivs Batch.step (chunkLines Example.g (dec (2 ^ 32)))) ≠ none :=
   clean_run_spec_big_id Example.g (2 ^ 32) (Nat.le_refl _) (by decide)
     ⟨by decide, by decide, by decide, by decide, by decide, by decide⟩ (by decide) _ (Weave.refl _)
+
+namespace Domain
+/-- `HWCg#4294967301=0/0,8x8:AQ==` (target id 2^32+5) -/
+def bigId : Bytes := [72,87,67,103,35,52,50,57,52,57,54,55,51,48,49,61,48,47,48,44,56,120,56,58,65,81,61,61]
+/-- `HWCg#4294967295=0000000000000000000000000/0,4294967295x8:AQ==` (largest id and width, a 25-digit index 0) -/
+def edge : Bytes := [72,87,67,103,35,52,50,57,52,57,54,55,50,57,53,61,48,48,48,48,48,48,48,48,48,48,48,48,48,48,48,48,
+  48,48,48,48,48,48,48,48,48,47,48,44,52,50,57,52,57,54,55,50,57,53,120,56,58,65,81,61,61]
+/-- `HWCg#5=0/0,8x8:AQ==`, `HWCg#5=0/0,8x8:Ag==`: two one-line transfers with payloads 01 and 02 -/
+def one1 : Bytes := [72,87,67,103,35,53,61,48,47,48,44,56,120,56,58,65,81,61,61]
+def one2 : Bytes := [72,87,67,103,35,53,61,48,47,48,44,56,120,56,58,65,103,61,61]
+def img (b : UInt8) : Spec.Gfx.Img := { ids := [5], fmt := 0, W := 8, H := 8, off := false, X := 0, Y := 0, data := [b] }
+end Domain
+
+/-- the id bound of the domain is needed: a chunk line for target id `2^32+5` is outside `inDomain`; the decoder
+delivers its image to id `5`, which the Spec rejects -/
+theorem safety_id_domain_counterexample :
+    Spec.Gfx.inDomain [Domain.bigId] = false ∧
+    Spec.Gfx.safety [Domain.bigId] (batchObserved Batch.step [Domain.bigId]) = some (.corrupt 0) := by decide
+
+/-- … and it is a bound on the *value*, not on the number of digits: the largest `uint32` id and width and a 25-digit
+chunk index `0` are inside the domain, and the line does deliver -/
+example : Spec.Gfx.inDomain [Domain.edge] = true ∧ (batchObserved Batch.step [Domain.edge]).length = 1 ∧
+    (streamDelivs Stream.parse [Domain.edge]).length = 1 := by decide
+
+/-- `safety_erase_pos` needs the deliveries in line order: listed out of order, two legitimate deliveries pass with
+their positions but not without (the Spec assigns increasing positions to a position-less list) -/
+theorem safety_erase_pos_needs_order :
+    Spec.Gfx.safety [Domain.one1, Domain.one2]
+      [⟨some 1, Domain.img 2, [2]⟩, ⟨some 0, Domain.img 1, [1]⟩] = none ∧
+    Spec.Gfx.safety [Domain.one1, Domain.one2]
+      ([⟨some 1, Domain.img 2, [2]⟩, ⟨some 0, Domain.img 1, [1]⟩].map erasePos) = some (.corrupt 1) := by decide
+
+/-- hypotheses of `safety_erase_pos` / the shape of `batchObserved` on a real history: one delivery, position erased -/
+example : PosSorted 0 (batchDelivs Batch.step [Pinned.c0of1, Pinned.c1, Pinned.c2]) ∧
+    (batchObserved Batch.step [Pinned.c0of1, Pinned.c1, Pinned.c2]).map (·.pos) = [none] ∧
+    (batchDelivs Batch.step [Pinned.c0of1, Pinned.c1, Pinned.c2]).map (·.pos) = [some 1] := by
+  refine ⟨delivsOf_posSorted Batch.step _ _ {} 0, by decide, by decide⟩
+
+/-- hypotheses of `clean_run_spec_multi` on a real input: ids 5 and 4294967295, `ping` between the two runs -/
+example : (∀ id ∈ [5, 4294967295], id < 2 ^ 32) ∧ InRange Example.g ∧
+    Weave (encodeState Example.g [5, 4294967295])
+      (chunkLines Example.g (dec 5) ++ Example.ping :: chunkLines Example.g (dec 4294967295)) := by
+  refine ⟨by decide, ⟨by decide, by decide, by decide, by decide, by decide, by decide⟩, ?_⟩
+  have e : encodeState Example.g [5, 4294967295] =
+      chunkLines Example.g (dec 5) ++ chunkLines Example.g (dec 4294967295) := by simp [encodeState]
+  rw [e]
+  have key : ∀ (a b : List Bytes), Weave b (Example.ping :: b) → Weave (a ++ b) (a ++ Example.ping :: b) := by
+    intro a b hb
+    induction a with
+    | nil => exact hb
+    | cons x xs ih => exact .take x _ _ ih
+  exact key _ _ (.skip _ _ _ ⟨by decide, by decide⟩ (Weave.refl _))
 
 /-! ## defects of the pinned tree (counterexamples, replayed on the code by corpus/C05/*.rec) -/
 
